@@ -117,8 +117,15 @@ type pfStep struct {
 }
 
 type pfCase struct {
-	Cfg   pfCfg    `json:"cfg"`
-	Steps []pfStep `json:"steps"`
+	Cfg     pfCfg        `json:"cfg"`
+	Steps   []pfStep     `json:"steps"`
+	Overlap *pfOverlapIn `json:"overlap,omitempty"` // the overlapping-revalidation scenario instead of a step list
+}
+
+type pfOverlapIn struct {
+	HostA      string   `json:"hostA"`
+	HostB      string   `json:"hostB"`
+	UserGroups []string `json:"userGroups"`
 }
 
 // ---------------------------------------------------------------- world
@@ -143,6 +150,10 @@ type pfWorld struct {
 	tmp        string
 	cookieName string
 	verify     func(r *http.Request, body []byte, rec M)
+	authHold   chan struct{} // when set: the first /validate call of the fake authenticator waits here …
+	authHoldIn chan struct{} // … after announcing itself here
+	authHeld   bool
+	intersect  bool          // /profile answers the intersection of the scripted groups with the groups asked about
 	hold       chan struct{} // when set: a backend request carrying X-Verif-Hold waits here before reading its body
 	holdIn     chan struct{} // … after announcing itself here
 }
@@ -202,7 +213,15 @@ func newPfWorld(cfg pfCfg) (*pfWorld, error) {
 		w.calls = append(w.calls, ep)
 		w.callInfo = append(w.callInfo, M{"ep": ep, "slug": parts[0], "token": r.Header.Get("X-Access-Token"), "secretOK": r.Header.Get("X-Client-Secret") == pfClientSecret || r.Form.Get("client_secret") == pfClientSecret,
 			"groups": r.Form.Get("groups"), "email": r.Form.Get("email"), "code": r.Form.Get("code"), "refresh_token": r.Form.Get("refresh_token")})
+		holdThis := w.authHold != nil && ep == "validate" && !w.authHeld
+		if holdThis {
+			w.authHeld = true
+		}
 		w.mu.Unlock()
+		if holdThis {
+			w.authHoldIn <- struct{}{}
+			<-w.authHold
+		}
 		if st == nil {
 			rw.WriteHeader(500)
 			return
@@ -217,7 +236,16 @@ func newPfWorld(cfg pfCfg) (*pfWorld, error) {
 			})
 		case "profile":
 			w.reply(rw, st.Profile, 200, func() string {
-				b, _ := json.Marshal(M{"email": r.Form.Get("email"), "groups": st.Profile.Groups})
+				gs := st.Profile.Groups
+				if w.intersect {
+					gs = []string{}
+					for _, g := range strings.Split(r.Form.Get("groups"), ",") {
+						if containsStr(st.Profile.Groups, g) {
+							gs = append(gs, g)
+						}
+					}
+				}
+				b, _ := json.Marshal(M{"email": r.Form.Get("email"), "groups": gs})
 				return string(b)
 			})
 		case "redeem":
@@ -851,7 +879,83 @@ func parseSetCookie(line string) *http.Cookie {
 
 var _ = net.Dial
 
+// pfOverlap: one user, sessions for two upstreams with different group rules and the same access token, both due for
+// revalidation; the request for the second host arrives while the first one's /validate call is still open at the
+// authenticator. Each request must be judged under its own upstream's policy.
+func pfOverlap(c pfCase) M {
+	w, err := newPfWorld(c.Cfg)
+	if err != nil {
+		return M{"cfg": c.Cfg, "setupError": err.Error(), "steps": []M{}, "raw": c}
+	}
+	defer w.close()
+	w.intersect = true
+	w.authHold, w.authHoldIn = make(chan struct{}), make(chan struct{}, 4)
+	now := time.Now().Truncate(time.Second)
+	w.mu.Lock()
+	w.cur = &pfStep{Validate: pfOK(), Refresh: pfOK(), Profile: pfReply{Kind: "ok", Groups: c.Overlap.UserGroups}, Redeem: pfOK()}
+	w.reached, w.calls = nil, nil
+	w.mu.Unlock()
+	type res struct {
+		status int
+	}
+	send := func(host string) chan res {
+		ch := make(chan res, 1)
+		ss := pfGoodSess(host)
+		ss.Valid = -10
+		ss.Groups = c.Overlap.UserGroups
+		req := httptest.NewRequest("GET", "http://"+host+"/", nil)
+		req.Host = host
+		req.Header.Set("Cookie", w.cookieName+"="+w.sealSess(w.cipher, ss, now))
+		go func() {
+			rec := httptest.NewRecorder()
+			w.handler.ServeHTTP(rec, req)
+			ch <- res{rec.Code}
+		}()
+		return ch
+	}
+	chA := send(c.Overlap.HostA)
+	overlapped := false
+	select {
+	case <-w.authHoldIn:
+		overlapped = true
+	case <-time.After(10 * time.Second):
+	}
+	chB := send(c.Overlap.HostB)
+	var rb res
+	bEarly := false
+	select {
+	case rb = <-chB: // B was judged on its own while A's call is still open
+		bEarly = true
+	case <-time.After(400 * time.Millisecond):
+	}
+	close(w.authHold)
+	ra := <-chA
+	if !bEarly {
+		rb = <-chB
+	}
+	w.mu.Lock()
+	reached, calls := w.reached, w.calls
+	w.cur = nil
+	w.mu.Unlock()
+	svcs := []string{}
+	for _, r := range reached {
+		svcs = append(svcs, fmt.Sprint(r["service"]))
+	}
+	sort.Strings(svcs)
+	nval := 0
+	for _, c := range calls {
+		if c == "validate" {
+			nval++
+		}
+	}
+	return M{"cfg": c.Cfg, "steps": []M{}, "raw": c, "overlap": M{"overlapped": overlapped, "statusA": ra.status, "statusB": rb.status,
+		"reached": svcs, "validateCalls": nval, "bAnsweredWhileAOpen": bEarly, "in": c.Overlap}}
+}
+
 func pfRun(c pfCase) M {
+	if c.Overlap != nil {
+		return pfOverlap(c)
+	}
 	w, err := newPfWorld(c.Cfg)
 	if err != nil {
 		return M{"cfg": c.Cfg, "setupError": err.Error(), "steps": []M{}, "raw": c}
